@@ -191,19 +191,50 @@ func (f *fileCtx) walk() {
 			if f.mode != "explore" {
 				break
 			}
-			// the arguments of a go statement are evaluated by the spawning goroutine
+			// the function value and the arguments of a go statement are evaluated by the spawning goroutine,
+			// at the go statement (go f(i) in a loop must see that iteration's i)
 			var names, exprs []string
+			needs := func(a ast.Expr) bool {
+				if tv, ok := f.info.Types[a]; ok && (tv.Value != nil || tv.IsNil() || tv.IsType()) {
+					return false
+				}
+				if _, ok := a.(*ast.FuncLit); ok {
+					return false
+				}
+				return true
+			}
+			line := f.fset.Position(x.Pos()).Line
+			switch fun := unparen(x.Call.Fun).(type) {
+			case *ast.FuncLit:
+			case *ast.Ident:
+				if _, isVar := f.info.Uses[fun].(*types.Var); isVar {
+					name := fmt.Sprintf("vrtgf%d", line)
+					names, exprs = append(names, name), append(exprs, f.text(fun))
+					f.repl(x.Call.Fun.Pos(), x.Call.Fun.End(), name)
+				}
+			case *ast.SelectorExpr:
+				if sel := f.info.Selections[fun]; sel != nil && (sel.Kind() == types.MethodVal || sel.Kind() == types.FieldVal) {
+					// method value: binds the receiver now
+					name := fmt.Sprintf("vrtgf%d", line)
+					names, exprs = append(names, name), append(exprs, f.text(fun))
+					f.repl(x.Call.Fun.Pos(), x.Call.Fun.End(), name)
+				}
+			default:
+				name := fmt.Sprintf("vrtgf%d", line)
+				names, exprs = append(names, name), append(exprs, f.text(fun))
+				f.repl(x.Call.Fun.Pos(), x.Call.Fun.End(), name)
+			}
 			for i, a := range x.Call.Args {
-				if !pure(a) {
-					name := fmt.Sprintf("vrtg%d_%d", f.fset.Position(x.Pos()).Line, i)
+				if _, isTuple := f.info.TypeOf(a).(*types.Tuple); isTuple {
+					f.unsupported(x, "go statement whose arguments are the results of a multi-valued call")
+				}
+				if needs(a) {
+					name := fmt.Sprintf("vrtg%d_%d", line, i)
 					names, exprs = append(names, name), append(exprs, f.text(a))
 					f.repl(a.Pos(), a.End(), name)
 				}
 			}
 			if len(names) > 0 {
-				if x.Call.Ellipsis.IsValid() {
-					f.unsupported(x, "go statement with a non-trivial variadic argument")
-				}
 				f.repl(x.Pos(), x.Call.Pos(), "{ "+strings.Join(names, ", ")+" := "+strings.Join(exprs, ", ")+"; vrt.Go(func() { ")
 				f.ins(x.End(), " }) }")
 			} else {
@@ -316,6 +347,14 @@ func (f *fileCtx) selector(x *ast.SelectorExpr) {
 	case "context.WithDeadline":
 		if f.mode == "explore" {
 			to = "vrt.WithDeadline"
+		}
+	case "context.WithTimeoutCause", "context.WithDeadlineCause":
+		if f.mode == "explore" {
+			to = "vrt." + x.Sel.Name
+		}
+	case "context.AfterFunc":
+		if f.mode == "explore" {
+			to = "vrt.ContextAfterFunc"
 		}
 	case "time.Now":
 		if f.mode == "explore" {
@@ -448,11 +487,14 @@ func (f *fileCtx) rangeStmt(x *ast.RangeStmt) {
 	t := f.info.TypeOf(x.X)
 	switch {
 	case isMap(t):
-		if !pure(x.X) {
-			f.unsupported(x, "range over a map expression with side effects")
-			return
-		}
 		m := f.text(x.X)
+		if !pure(x.X) {
+			// evaluate the map expression once: { vrtm := <expr>; for ... range vrt.Keys(vrtm) { ... } }
+			name := fmt.Sprintf("vrtm%d", f.fset.Position(x.Pos()).Line)
+			f.ins(x.Pos(), "{ "+name+" := "+m+"; ")
+			f.ins(x.End(), " }")
+			m = name
+		}
 		key, val := "_", ""
 		if x.Key != nil {
 			key = f.text(x.Key)
